@@ -169,6 +169,9 @@ class CallMixin:
         if n == "typeof_is":
             v = self.ev1(e.args[0], st)
             name = e.args[1].value
+            inner = opt_inner(v) if v.ty.kind == "opt" else v
+            if inner.ty.kind == "ref" and inner.ty.cls and self.is_subclass_name(inner.ty.cls, name):
+                return [(st, mk_bool(True))]
             return [(st, mk_bool(self.issub_term(self.typeof(self.coerce(v, Ref(), st).ts[0]), name)))]
         return None
 
@@ -486,6 +489,8 @@ class CallMixin:
                 for s3, v in self.ev(lam.body, s2, exc):
                     s3.env = {k2: v2 for k2, v2 in s3.env.items() if k2 in s.env}
                     out.append((s3, v))
+            elif fv.ty.kind == "func" and isinstance(fv.py, tuple) and fv.py[0] == "boundm":
+                out += self.method(fv.py[1], None, fv.py[2], pos, kw, s, exc, e)
             elif fv.ty.kind == "func" and isinstance(fv.py, tuple) and fv.py[0] == "bound":
                 out += self.call_method_on(fv.py[1], fv.py[2], pos, kw, s, exc, e)
             elif fv.ty.kind == "cls":
@@ -526,6 +531,14 @@ class CallMixin:
         sn = static_name(f)
         src = ast.unparse(f)
         root = sn.split(".")[0] if sn else None
+        if sn == "object.__new__" and "object" not in st.env:
+            out = []
+            for s, pos, kw in self.eval_args(e, st, exc):
+                clsv = pos[0]
+                r = self.new_ref(s, "new_obj")
+                s.assume(smt.Eq(self.typeof(r), clsv.ts[0]))
+                out.append((s, SV(Ref(clsv.py if isinstance(clsv.py, str) else None), [r])))
+            return out
         if sn and root not in st.env and root in self.modpatterns and sn.count(".") == 1:
             out = []
             for s, pos, kw in self.eval_args(e, st, exc):
